@@ -388,6 +388,8 @@ def r20(ctx: Ctx) -> RuleReport:
                     callee = t.func
                     idx = callee.positional.index('indent') if 'indent' in callee.positional else None
                     a = call.args[idx] if idx is not None and idx < len(call.args) else None
+                    if a is None:
+                        a = next((k.value for k in call.keywords if k.arg == 'indent'), None)
                     good = a is not None and norm(a) == 'indent'
                     rep.add(f'{fi.module.name}:{fi.qualname}: {norm(call)[:60]} passes indent on', fi.loc(call), 'ok' if good else 'undecided')
     return rep
@@ -415,6 +417,19 @@ WRITER_FIELDS = {
 
 def _template(e: ast.AST) -> Optional[List[Tuple[str, str]]]:
     """f-string -> [('lit', text) | ('field', name)]"""
+    if isinstance(e, ast.Call) and isinstance(e.func, ast.Attribute) and e.func.attr == 'format' and not e.keywords \
+            and isinstance(e.func.value, ast.Constant) and isinstance(e.func.value.value, str):
+        # '{}({}, {})'.format(a, b, c) with plain positional fields only
+        parts = e.func.value.value.split('{}')
+        if len(parts) == len(e.args) + 1 and '{' not in ''.join(parts) and '}' not in ''.join(parts):
+            out = []
+            for i, lit in enumerate(parts):
+                if lit:
+                    out.append(('lit', lit))
+                if i < len(e.args):
+                    out.append(('field', norm(e.args[i])))
+            return out
+        return None
     if not isinstance(e, ast.JoinedStr):
         if isinstance(e, ast.Constant) and isinstance(e.value, str):
             return [('lit', e.value)]
@@ -689,14 +704,20 @@ def r45(ctx: Ctx) -> RuleReport:
         and rets[0].value.func.attr == 'join' and try_fold(rets[0].value.func.value) == (True, '\n')
     rep.add('penman._format:format: metadata lines and the node are joined by single line feeds', fi.loc(), 'ok' if good else 'undecided')
     # reader side
-    pc = ctx.repo.func('penman._parse', '_parse_comments')
+    # the comment scanner: the function of penman._parse that splits comment text at "::"
+    cands = [f for f in ctx.repo.module('penman._parse').all_funcs if any(
+        isinstance(n, ast.Call) and isinstance(n.func, ast.Attribute) and n.func.attr in ('rpartition', 'rsplit', 'split', 'partition')
+        and n.args and try_fold(n.args[0]) == (True, '::') for n in walk_local(f.node))]
+    if len(cands) != 1:
+        raise AnalysisError(f'R45: expected one function in penman._parse that splits comments at "::", found {[f.qualname for f in cands]}')
+    pc = cands[0]
     rp = [n for n in walk_local(pc.node) if isinstance(n, ast.Call) and isinstance(n.func, ast.Attribute) and n.func.attr == 'rpartition'
           and n.args and try_fold(n.args[0]) == (True, '::')]
     pt = [n for n in walk_local(pc.node) if isinstance(n, ast.Call) and isinstance(n.func, ast.Attribute) and n.func.attr == 'partition'
           and n.args and try_fold(n.args[0]) == (True, ' ')]
     sp = [n for n in walk_local(pc.node) if isinstance(n, ast.Call) and isinstance(n.func, ast.Attribute) and n.func.attr in ('rsplit', 'split')
           and len(n.args) == 1 and try_fold(n.args[0]) == (True, '::')]
-    rep.add('penman._parse:_parse_comments: a comment is split at "::" and each piece at its first space', pc.loc(),
+    rep.add('penman._parse: the comment scanner: a comment is split at "::" and each piece at its first space', pc.loc(),
             'ok' if (rp or sp) and pt else 'undecided')
     stores = [n for n in walk_local(pc.node) if isinstance(n, ast.Assign) and isinstance(n.targets[0], ast.Subscript)
               and norm(n.targets[0].value) == 'metadata']
@@ -714,12 +735,12 @@ def r45(ctx: Ctx) -> RuleReport:
         val_ok = isinstance(vx, ast.Call) and isinstance(vx.func, ast.Attribute) and vx.func.attr == 'rstrip' and not vx.args \
             and norm(vx.func.value) == unp[2]
         key_stripped = isinstance(kx, ast.Call) and isinstance(kx.func, ast.Attribute) and kx.func.attr in ('strip', 'lstrip', 'rstrip', 'lower', 'upper')
-        rep.add('penman._parse:_parse_comments: the key is stored as written', pc.loc(st), 'ok' if key_ok else ('violation' if key_stripped else 'undecided'),
+        rep.add('penman._parse: the comment scanner: the key is stored as written', pc.loc(st), 'ok' if key_ok else ('violation' if key_stripped else 'undecided'),
                 '' if key_ok else f'key expression {norm(kx)}')
         raw_piece = isinstance(vx, ast.Name) and norm(vx) == unp[2]
         left_strip = isinstance(vx, ast.Call) and isinstance(vx.func, ast.Attribute) and vx.func.attr in ('strip', 'lstrip') \
             and norm(vx.func.value) == unp[2]
-        rep.add('penman._parse:_parse_comments: each value is stored with trailing blanks removed and leading content kept', pc.loc(st),
+        rep.add('penman._parse: the comment scanner: each value is stored with trailing blanks removed and leading content kept', pc.loc(st),
                 'ok' if val_ok else ('violation' if raw_piece or left_strip else 'undecided'),
                 '' if val_ok else f'stored value is {norm(vx)}: the formatter writes the value verbatim after one space, so a value that '
                                   f'keeps a trailing blank (segments before another "::") or loses leading blanks does not survive format then parse')
@@ -791,6 +812,11 @@ def r56(ctx: Ctx) -> RuleReport:
         if ok:
             lits.append(val)
             return
+        if isinstance(e, ast.Subscript):
+            okd, table = fold_in(ctx, fi, e.value)
+            if okd and isinstance(table, dict) and table:
+                lits.extend(table.values())         # a lookup table: any of its values may be chosen
+                return
         if isinstance(e, ast.Name):
             try:
                 defs = v.rd.get(v.node_of(at), {}).get(e.id) or ()
